@@ -326,27 +326,40 @@ Definition kv_lookup_keys_by_prefix_orig (s : kvs) (p : bytes) (maxn : N) (m : r
   let '(start, e) := keyPrefixIntervalPreprocessing p in
   Ok (rnd, kv_pfx_loop_orig (kv_iter s start e false) maxn m cnt)).
 
-(* repaired (C47a) *)
+(* the loop of the repaired LookupKeysByPrefix (C47a), which is the loop of the SQL implementation:
+   [keys] are the user keys in key order; a key already in the map is left alone and not counted *)
+Fixpoint pfx_loop (keys : list bytes) (maxn : N) (m : results) (cnt : N) : results :=
+  match keys with
+  | [] => m
+  | k :: t => if cnt =? maxn then m
+              else match results_get m k with
+                   | Some _ => pfx_loop t maxn m cnt
+                   | None => pfx_loop t maxn (results_set m k true) (cnt + 1)
+                   end
+  end.
 Definition appKvPrefixInterval (p : bytes) : res (bytes * bytes) :=
   match snd (keyPrefixIntervalPreprocessing p) with
   | None => ErrStrangePrefix
   | Some rawEnd => Ok (appKvKey p, appKvKey rawEnd)
   end.
 Definition appKvKeyToUserKey (key : bytes) : bytes := skipn 3 key.
-Fixpoint kv_pfx_loop (it : kvs) (maxn : N) (m : results) (cnt : N) : results :=
-  match it with
-  | [] => m
-  | (k, v) :: t => if cnt =? maxn then m
-                   else let key := appKvKeyToUserKey k in
-                        match results_get m key with
-                        | Some _ => kv_pfx_loop t maxn m cnt
-                        | None => kv_pfx_loop t maxn (results_set m key true) (cnt + 1)
-                        end
-  end.
 Definition kv_lookup_keys_by_prefix (s : kvs) (p : bytes) (maxn : N) (m : results) (cnt : N) : res (N * results) :=
   bind (appKvPrefixInterval p) (fun se =>
   bind (kv_accounts_round s) (fun rnd =>
-  Ok (rnd, kv_pfx_loop (kv_iter s (fst se) (Some (snd se)) false) maxn m cnt))).
+  Ok (rnd, pfx_loop (map (fun e => appKvKeyToUserKey (fst e)) (kv_iter s (fst se) (Some (snd se)) false)) maxn m cnt))).
+(* intermediate state used only to name the second defect: range repaired, result flags as found *)
+Fixpoint kv_pfx_loop_flags (it : list (bytes * value)) (maxn : N) (m : results) (cnt : N) : results :=
+  match it with
+  | [] => m
+  | (k, v) :: t => if cnt =? maxn then m
+                   else kv_pfx_loop_flags t maxn (results_set m k (negb (N.of_nat (length v) =? 0))) (cnt + 1)
+  end.
+Definition kv_lookup_keys_by_prefix_flags (s : kvs) (p : bytes) (maxn : N) (m : results) (cnt : N) : res (N * results) :=
+  bind (kv_accounts_round s) (fun rnd =>
+  match snd (keyPrefixIntervalPreprocessing (appKvKey p)) with
+  | None => ErrOther
+  | Some e => Ok (rnd, kv_pfx_loop_flags (map (fun e => (appKvKeyToUserKey (fst e), snd e)) (kv_iter s (appKvKey p) (Some e) false)) maxn m cnt)
+  end).
 
 (* the shared paging loop of LookupKeysByPrefixCursor (identical in both backends): [rows] are
    (user key, value) in key order; returns (results, moreData) *)
@@ -458,24 +471,24 @@ Definition kv_expired_online_accounts (s : kvs) (rnd voteRnd : N) : list (bytes 
   let '(low, high) := onlineAccountBalanceForRoundRangePrefix rnd in
   kv_expired_loop (kv_iter s low (Some high) true) voteRnd [] [].
 
-(* OnlineAccountsAll -> [(addr, updround, item.Round, value)] *)
-Fixpoint kv_online_all_loop (it : kvs) (maxn : N) (last : option bytes) (seen : N) (rnd : N) : list (bytes * N * N * value) :=
-  match it with
+(* OnlineAccountsAll -> [(addr, updround, item.Round, value)]; the loop is the same in both backends
+   (lastAddr starts as the zero address, so a leading zero address is not counted) *)
+Fixpoint online_all_loop (rows : list (bytes * N * value)) (maxn : N) (last : bytes) (seen : N) (rndfield : N)
+  : list (bytes * N * N * value) :=
+  match rows with
   | [] => []
-  | (k, v) :: t =>
-      let a := extractOnlineAccountAddress k in
-      let upd := extractOnlineAccountRound k in
+  | (a, upd, v) :: t =>
       if 0 <? maxn then
-        let fresh := match last with Some l => negb (beqb a l) | None => negb (beqb a zero_addr) end in
-        let seen' := if fresh then seen + 1 else seen in
+        let seen' := if beqb a last then seen else seen + 1 in
         if maxn <? seen' then []
-        else (a, upd, rnd, v) :: kv_online_all_loop t maxn (Some a) seen' rnd
-      else (a, upd, rnd, v) :: kv_online_all_loop t maxn last seen rnd
+        else (a, upd, rndfield, v) :: online_all_loop t maxn a seen' rndfield
+      else (a, upd, rndfield, v) :: online_all_loop t maxn last seen rndfield
   end.
 Definition kv_online_accounts_all (s : kvs) (maxn : N) : res (list (bytes * N * N * value)) :=
   bind (kv_accounts_round s) (fun rnd =>
   let '(low, high) := onlineAccountFullRangePrefix in
-  Ok (kv_online_all_loop (kv_iter s low (Some high) false) maxn None 0 rnd)).
+  Ok (online_all_loop (map (fun e => (extractOnlineAccountAddress (fst e), extractOnlineAccountRound (fst e), snd e))
+                           (kv_iter s low (Some high) false)) maxn zero_addr 0 rnd)).
 
 (* LoadTxTail -> (payloads oldest first, baseRound); round arithmetic is uint64 *)
 Definition w64 (z : N) : N := z mod 2 ^ 64.
@@ -642,19 +655,10 @@ Definition is_app_with_prefix (p : bytes) (k : skey) : bool := match k with KApp
 Definition strange_prefix (p : bytes) : bool := forallb (fun x => 255 <=? x) p.
 (* SQL LookupKeysByPrefix: the keys with the prefix in key order; a key already in the map is left
    alone and not counted; stop when the count reaches the maximum *)
-Fixpoint spec_pfx_loop (keys : list bytes) (maxn : N) (m : results) (cnt : N) : results :=
-  match keys with
-  | [] => m
-  | k :: t => if cnt =? maxn then m
-              else match results_get m k with
-                   | Some _ => spec_pfx_loop t maxn m cnt
-                   | None => spec_pfx_loop t maxn (results_set m k true) (cnt + 1)
-                   end
-  end.
 Definition spec_lookup_keys_by_prefix (s : spec) (p : bytes) (maxn : N) (m : results) (cnt : N) : res (N * results) :=
   if strange_prefix p then ErrStrangePrefix else
   bind (spec_round s) (fun rnd =>
-  Ok (rnd, spec_pfx_loop (map (fun e => app_key (fst e)) (sselect s (is_app_with_prefix p))) maxn m cnt)).
+  Ok (rnd, pfx_loop (map (fun e => app_key (fst e)) (sselect s (is_app_with_prefix p))) maxn m cnt)).
 (* SQL LookupKeysByPrefixCursor: the keys with the prefix that are >= the cursor (when it lies past
    the prefix start), in key order, through the paging loop *)
 Definition spec_lookup_keys_by_prefix_cursor (s : spec) (p cursor : bytes) (limit maxb : N) (incl : bool) (excl : list bytes)
@@ -748,24 +752,12 @@ Definition spec_expired_online_accounts (s : spec) (rnd voteRnd : N) : list (byt
   map (fun e => (onl_addr (fst e), onl_data (snd e)))
       (filter (fun e => (onl_votelast (snd e) <? voteRnd) && (0 <? onl_votelast (snd e))) (spec_latest_rows s rnd)).
 
-(* ORDER BY address, updround; at most maxn addresses when maxn > 0; item.Round is not filled in *)
-Fixpoint spec_online_all_loop (rows : list (skey * value)) (maxn : N) (last : option bytes) (seen : N) (rndfield : N)
-  : list (bytes * N * N * value) :=
-  match rows with
-  | [] => []
-  | (k, v) :: t =>
-      let a := onl_addr k in
-      if 0 <? maxn then
-        let fresh := match last with Some l => negb (beqb a l) | None => negb (beqb a zero_addr) end in
-        let seen' := if fresh then seen + 1 else seen in
-        if maxn <? seen' then []
-        else (a, onl_round k, rndfield, onl_data v) :: spec_online_all_loop t maxn (Some a) seen' rndfield
-      else (a, onl_round k, rndfield, onl_data v) :: spec_online_all_loop t maxn last seen rndfield
-  end.
-(* [rndfield]: 0 in SQLite; the key-value backend puts the db round there (recorded finding) *)
+(* ORDER BY address, updround; at most maxn addresses when maxn > 0; item.Round is not filled in by
+   SQLite ([kvround = false]); the key-value backend puts the db round there (recorded finding) *)
 Definition spec_online_accounts_all (s : spec) (maxn : N) (kvround : bool) : res (list (bytes * N * N * value)) :=
   bind (spec_round s) (fun rnd =>
-  Ok (spec_online_all_loop (sselect s is_onl) maxn None 0 (if kvround then rnd else 0))).
+  Ok (online_all_loop (map (fun e => (onl_addr (fst e), onl_round (fst e), onl_data (snd e))) (sselect s is_onl))
+                      maxn zero_addr 0 (if kvround then rnd else 0))).
 
 Definition is_txtail (k : skey) : bool := match k with KTxTail _ => true | _ => false end.
 Definition is_orp (k : skey) : bool := match k with KOrp _ => true | _ => false end.
